@@ -367,33 +367,66 @@ func (i *interpreter) commit(db *modelDB, order []string, pend map[string][]valu
 }
 
 // crash machinery: a crash point either lets execution continue or ends the
-// "process": the harness's crash continuation then runs (restart).
-func (i *interpreter) crashPoint(site string) {
-	if !i.crashOn || i.crashesUsed >= i.crashBudget {
-		return
+// simulated process (vsym.UntilCrash takes over; see intrinsics.go).  Occurrences
+// of a site are numbered so that the native twin can crash at the same one.
+func (i *interpreter) crashKey(site string) string {
+	if i.crashCalls == nil {
+		i.crashCalls = map[string]int{}
 	}
-	if i.decide("crash:"+site, 2, func(int) *Term { return nil }) == 1 {
-		i.crashesUsed++
-		i.trace = append(i.trace, "crash@"+site)
-		panic(processCrash{site})
+	n := i.crashCalls[site]
+	i.crashCalls[site] = n + 1
+	if n > 0 {
+		return fmt.Sprintf("%s#%d", site, n)
 	}
+	return site
 }
 
-func (i *interpreter) crashMidFlush(site string) bool {
-	if !i.crashOn || i.crashesUsed >= i.crashBudget {
+func (i *interpreter) crashSelected(site string) bool {
+	key := i.crashKey(site)
+	if cc := i.w.concrete; cc != nil {
+		for _, c := range cc.Crashes {
+			if c == key {
+				return true
+			}
+		}
+		return false
+	}
+	if !i.crashOn || i.crashesUsed >= i.crashBudget || i.crashOwner == nil {
 		return false
 	}
 	if i.decide("crash:"+site, 2, func(int) *Term { return nil }) == 1 {
 		i.crashesUsed++
-		i.trace = append(i.trace, "crash@"+site)
-		i.midFlush = true
+		i.trace = append(i.trace, "crash@"+key)
 		return true
 	}
 	return false
 }
 
+func (i *interpreter) crashPoint(site string) {
+	if i.crashSelected(site) {
+		panic(processCrash{site})
+	}
+}
+
+func (i *interpreter) crashMidFlush(site string) bool {
+	return i.crashSelected(site)
+}
+
+// crashSubset: whether entry k of a batch in flight had reached the disk when the process died.
 func (i *interpreter) crashSubset(k int) bool {
-	return i.decide(fmt.Sprintf("flush-subset:%d", k), 2, func(int) *Term { return nil }) == 1
+	if cc := i.w.concrete; cc != nil {
+		for _, c := range cc.Crashes {
+			if c == fmt.Sprintf("subset:%d", k) {
+				return true
+			}
+		}
+		return false
+	}
+	if i.decide(fmt.Sprintf("flush-subset:%d", k), 2, func(int) *Term { return nil }) == 1 {
+		i.trace = append(i.trace, fmt.Sprintf("crash@subset:%d", k))
+		return true
+	}
+	return false
 }
 
 // processCrash unwinds the simulated process up to vsym.UntilCrash.
